@@ -286,3 +286,15 @@ check("C31", "internal/zzverif/c31",
       floors={"any": {"lookups_returning_the_preimage": 800, "lookups_returning_nothing": 20000, "host_call_lookups": 5000, "extrinsics_accepted": 3000, "rejected_for_order": 1000, "rejected_for_need": 3000, "integrations": 3000,
                       "integrations_with_a_vanished_request": 500, "preimages_solicited_only_in_raw_key_values": 1000}},
       exhaustive="all availability records of length 0..3 over {0,5,10,15} x t in 0..20 x 5 account shapes", assumptions=[STANDIN_VRF])
+
+check("C35", "internal/zzverif/c35",
+      rule="case = one history of 2..8 blocks on the blockchain singleton (V = 6 validators; V = 1023 in every 200th thorough history), each block with 0..3 verdicts carrying real Ed25519 votes (ValidatorsSuperMajority votes each, sorted by index, signed with the current or the previous epoch's keys per the verdict's age), positive-vote counts drawn from {0, V/3, 2V/3+1}, targets fresh random / small hashes that sort before and between recorded ones / hashes of reports pending in rho, "
+           ">= 2 culprits per bad verdict and >= 1 fault per good verdict with valid jam_guarantee / jam_valid / jam_invalid signatures by non-offender keys of kappa or lambda, epoch changes rotating kappa into lambda; a third of the blocks carry ONE mutation (vote count next to a legal one, target judged earlier, unsorted verdicts/votes/culprits, bad signature, bad age, missing culprit/fault, culprit for a non-bad verdict, offender reported again). "
+           "Judged after every block: well-formed extrinsic accepted; other vote counts and already-judged targets rejected; after acceptance the three report sets are sorted, duplicate-free, pairwise disjoint and equal prior + this block's verdicts of that class; offenders sorted, superset of before, equal prior + culprit and fault keys; pending reports judged bad/wonky gone from rho-dagger, all others kept. The history continues from the last accepted state. distinct_nontrivial = distinct histories",
+      technique="reference-model + invariant monitor over generated block histories with real signatures, driven through the dispute STF on the blockchain singleton",
+      level_text="Classification model and set invariants checked after every block of generated dispute histories; held = no divergence or invariant violation on what was explored.",
+      note="Admission rules the statement does not spell out (orderings, ages, signature validity, culprit/fault validity) are exercised by one-fault mutants but their outcome is only recorded (U11). State left behind by a REJECTED block is C26's subject.",
+      shards=(8, 16), env={"JAM_FUZZ": "1"},
+      floors={"any": {"blocks_accepted": 2000, "blocks_rejected": 500, "verdicts_good": 500, "verdicts_bad": 500, "verdicts_wonky": 500, "mutation_vote-split": 200, "mutation_already-judged": 50,
+                      "pending_reports_cleared": 100, "pending_reports_judged_good_kept": 50, "blocks_adding_to_nonempty_records": 1000}},
+      assumptions=[STANDIN_VRF])
